@@ -165,3 +165,64 @@ func TestC10_DifficultyRule(t *testing.T) {
 	}
 	rapid.Check(t, func(t *rapid.T) { runDifficulty(t, r) })
 }
+
+const ruleAnyDifficulty = "Rinkeby-mode client (difficulty and proof of work are not rules there): a valid child of the creation header whose difficulty is drawn from 1, 2, 2^63, 2^64-1, 2^64, " +
+	"k*2^64, 2^128, 2^255 and random 256-bit values must be accepted and become the head; difficulty 0 (meaningless) must be refused; non-trivial = difficulty >= 2^64; distinct by difficulty class"
+
+func TestC10_RinkebyAnyDifficulty(t *testing.T) {
+	r := rec.For("TestC10_RinkebyAnyDifficulty", ruleAnyDifficulty)
+	rapid.Check(t, func(t *rapid.T) {
+		c := baseChain()
+		ctx, _ := c.Ctx().CacheContext()
+		w := &world{ctx: ctx}
+		w.setNow(startNow)
+		ctx = w.ctx
+		p := ethsim.Genesis(ethsim.GenesisOpts{Number: uint64(rapid.SampledFrom([]int{46, 9_699_999, 13_286_181}).Draw(t, "parentNumber")), Time: startNow - 1000, GasLimit: 30_000_000, GasUsed: 15_000_000,
+			BaseFee: 1_000_000_000, Root: common.BytesToHash([]byte{0xe1})})
+		kit.Must(c.App.XIBCKeeper.ClientKeeper.CreateClient(ctx, clientName, ethsim.ClientState(p, 4, trustingPeriod), ethsim.ConsensusState(p)), "create client")
+		child := ethsim.Child(p, ethsim.ChildOpts{DT: uint64(rapid.IntRange(1, 900).Draw(t, "gap")), GasUsedPermil: 500, Root: common.BytesToHash([]byte{0xe2}), Extra: []byte("x")})
+		class := rapid.SampledFrom([]string{"1", "2", "2^63", "2^64-1", "2^64", "k*2^64", "2^128", "2^255", "random", "0"}).Draw(t, "difficulty")
+		one := big.NewInt(1)
+		switch class {
+		case "1", "2":
+			child.Difficulty = big.NewInt(int64(class[0] - '0'))
+		case "2^63":
+			child.Difficulty = new(big.Int).Lsh(one, 63)
+		case "2^64-1":
+			child.Difficulty = new(big.Int).Sub(new(big.Int).Lsh(one, 64), one)
+		case "2^64":
+			child.Difficulty = new(big.Int).Lsh(one, 64)
+		case "k*2^64":
+			child.Difficulty = new(big.Int).Lsh(big.NewInt(int64(rapid.IntRange(2, 1_000_000).Draw(t, "k"))), 64)
+		case "2^128":
+			child.Difficulty = new(big.Int).Lsh(one, 128)
+		case "2^255":
+			child.Difficulty = new(big.Int).Lsh(one, 255)
+		case "random":
+			child.Difficulty = new(big.Int).SetBytes(rapid.SliceOfN(rapid.Byte(), 1, 32).Draw(t, "bytes"))
+			if child.Difficulty.Sign() == 0 {
+				child.Difficulty = big.NewInt(7)
+			}
+		default:
+			child.Difficulty = big.NewInt(0)
+		}
+		r.Step()
+		err := update(c, ctx, child)
+		if class == "0" {
+			if err == nil {
+				t.Fatalf("a header with difficulty 0 was accepted")
+			}
+			r.Case(class, false, nil)
+			return
+		}
+		if err != nil {
+			t.Fatalf("a valid child of the creation header with difficulty %s (%s; not a rule on Rinkeby) was REJECTED: %v", child.Difficulty, class, firstLine(err.Error()))
+		}
+		tree := ethsim.NewTree(p)
+		id, _ := tree.Add(0, child)
+		if msg := checkHeadAndAncestry(c, ctx, tree, id); msg != "" {
+			t.Fatalf("child with difficulty %s accepted but: %s", child.Difficulty, msg)
+		}
+		r.Case(class, child.Difficulty.BitLen() > 64, func() interface{} { return child.Difficulty.String() })
+	})
+}
